@@ -887,9 +887,15 @@ fn render_history(w: &serde_json::Value) -> (bool, String) {
         let mut reference: Vec<Vec<std::result::Result<String, String>>> = vec![];
         for t in &templates {
             let mut row = vec![];
-            for o in &objs {
-                let fresh = build_parser_policy(partials.as_ref(), &policy)?;
-                row.push(match fresh.parse(t) { Ok(tp) => tp.render(o).map_err(|e| format!("{e}").lines().next().unwrap_or("").to_owned()), Err(e) => Err(format!("parse {e}")) });
+            for d in &datas {
+                // a freshly built parser ON A FRESH THREAD (thread-local state must not leak into the reference either)
+                let (t2, d2, p2, pol2) = (t.clone(), d.clone(), partials.clone(), policy.clone());
+                let r = std::thread::spawn(move || -> Result<std::result::Result<String, String>, String> {
+                    let fresh = build_parser_policy(p2.as_ref(), &pol2)?;
+                    let o: liquid::Object = serde_json::from_value(d2).unwrap_or_default();
+                    Ok(match fresh.parse(&t2) { Ok(tp) => tp.render(&o).map_err(|e| format!("{e}").lines().next().unwrap_or("").to_owned()), Err(e) => Err(format!("parse {e}")) })
+                }).join().map_err(|_| "PANIC in a reference render".to_owned())??;
+                row.push(r);
             }
             reference.push(row);
         }
